@@ -699,12 +699,12 @@ def register5(w):
     w.fields("GopherEntry", realencoding="opt[str]")
     w.contract(H + "file.py::FileHandler.getentry", selfclass=["FileHandler", "HTMLFileTitleHandler"],
                requires=FS, modifies=["self.entry", MROOT], raises={}, returns="obj:GopherEntry",
-               ensures=["result is self.entry"],
+               ensures=["self.entry is result"],
                use_lemmas=[("no-climb", {"s": "self.selector", "root": "self.config.get('pygopherd', 'root')"})],
                **common)
     w.contract(H + "dir.py::DirHandler.getentry", selfclass=["DirHandler", "UMNDirHandler"],
                requires=FS, modifies=["self.entry", MROOT], raises={}, returns="obj:GopherEntry",
-               ensures=["result is self.entry"],
+               ensures=["self.entry is result"],
                use_lemmas=[("no-climb", {"s": "self.selector", "root": "self.config.get('pygopherd', 'root')"})],
                **common)
     w.contract(H + "gophermap.py::BuckGophermapHandler.prepare", selfclass=["BuckGophermapHandler"],
